@@ -167,6 +167,11 @@ Print Assumptions C08_utf8.
 Theorem C08_utf8_initial : forall b, buf_valid b -> est_valid (init_est b).
 Proof. exact init_est_valid. Qed.
 Print Assumptions C08_utf8_initial.
+(* ... and so is the state made from any valid UTF-8 file image (cut into lines at the newline bytes, a missing
+   last terminator added, every line cut into characters with uc_next) *)
+Theorem C08_utf8_file : forall s, valid s -> est_valid (init_est (buf_of_bytes s)).
+Proof. exact init_file_valid. Qed.
+Print Assumptions C08_utf8_file.
 (* the text that reaches a register from the character view is valid UTF-8 *)
 Theorem C08_utf8_register : forall cs, line_valid cs -> valid (flat cs).
 Proof. exact flat_valid. Qed.
